@@ -95,7 +95,21 @@ Proof. exact (crosstab_absent_is_null agg e agg_assoc agg_comm agg_e n0 n1 rm cm
 Theorem C14_crosstab_ordinary_cell n0 n1 rm cm D r c v : concrete (n0 + n1) D -> NoDup (map fst D) ->
   In (r ++ c, v) D -> crosstab_cell agg n0 n1 rm cm D r c = Some v.
 Proof. exact (crosstab_ordinary_cell agg e agg_assoc agg_comm agg_e n0 n1 rm cm D r c v). Qed.
+
+(* add_row_margin refuses a frame in which a group is itself labelled 'All' (before the repair the total silently overwrote that
+   group): what it accepts meets the hypothesis of the theorems above, so for every accepted frame whose keys have one entry
+   per level and are pairwise distinct, every row produced is the aggregate of the rows it stands for *)
+Theorem C14_accepted_frames n levels D out : (forall k, In k (map fst D) -> length k = n) -> NoDup (map fst D) ->
+  add_row_margin_checked agg n levels D = Some out ->
+  forall k v, In (k, v) out -> v = total agg e k D /\ (forall i, (i < n)%nat -> is_all k i = true -> In i levels).
+Proof.
+  intros Hlen Hn Hacc k v Hin. unfold add_row_margin_checked in Hacc.
+  destruct (has_all_label D) eqn:Hh; [discriminate|]. inversion Hacc; subst out.
+  destruct (add_row_margin_sound agg e agg_assoc agg_comm agg_e n levels D (accepted_is_concrete n D Hh Hlen) Hn k v Hin) as [H1 [H2 _]].
+  exact (conj H1 H2).
+Qed.
 End MultiLevel.
+Print Assumptions C14_accepted_frames.
 Print Assumptions C14_crosstab_cell.
 Print Assumptions C14_crosstab_absent_combination_is_null.
 Print Assumptions C14_crosstab_ordinary_cell.
